@@ -67,3 +67,14 @@ Proof.
   - reflexivity.
   - reflexivity.
 Qed.
+
+(* comparing the scaled integers is comparing the rationals they stand for *)
+Theorem cmp_scaled_spec fa fb A B :
+  let '(A', B') := cmp_scaled fa fb A B in (A' ?= B') = (rep A fa ?= rep B fb)%Q.
+Proof.
+  unfold cmp_scaled, rep, Qcompare, FB. destruct fa, fb; cbn [Bool.eqb Qnum Qden inject_Z].
+  - apply Zmult_compare_compat_r. reflexivity.
+  - rewrite Z.mul_1_r. reflexivity.
+  - rewrite Z.mul_1_r. reflexivity.
+  - rewrite !Z.mul_1_r. reflexivity.
+Qed.
